@@ -1,6 +1,6 @@
 SPECIFICATION TSpec
 CONSTANTS
-  Quirks = {"DashOnlyInCap", "CommentEndsBlock", "NumAlwaysMerged", "DoubleHideCrash"}
+  Quirks = {"CommentEndsBlock"}
 CONSTRAINT Record
 POSTCONDITION Post
 CHECK_DEADLOCK FALSE
